@@ -70,6 +70,11 @@ def cases(tier, seed):
     for ch in UNICODE_PANEL:
         if len(ch) > 1:
             yield {"s": "ACD" + ch + "EFG"}
+    # text pasted with a FASTA header or other record decoration: not a sequence string, must be rejected
+    for base in bases:
+        for s in (">" + base + "\n" + base, ">sp|P1|X\n" + base, " >hdr\n" + base + "\n", ">\n" + base, ">" + base + "\r\n" + base + "\n",
+                  base + "\n>" + base, base + "*", base + "\n*", "1 " + base, base + " 10", ";" + base + "\n" + base):
+            yield {"s": s}
     for i in range(NVALID[tier]):
         w = gen.rand_seq(rng, hi=120 if i % 6 == 0 else 30)
         chars = []
